@@ -140,6 +140,16 @@ if __name__ == "__main__":
     elif a[0] == "demo":
         sys.exit(0 if demo(a[1]) else 1)
     elif a[0] == "all":
-        for sid in sorted(os.listdir(os.path.join(VERIF, "seeded"))):
-            if os.path.exists(os.path.join(VERIF, "seeded", sid, "patch.diff")):
+        # tools/seeded.py all [--jobs N] [--only C07,C08]   (parallel runs use scratch worktrees)
+        jobs = int(a[a.index("--jobs") + 1]) if "--jobs" in a else 1
+        only = a[a.index("--only") + 1].split(",") if "--only" in a else None
+        sids = [sid for sid in sorted(os.listdir(os.path.join(VERIF, "seeded")))
+                if os.path.exists(os.path.join(VERIF, "seeded", sid, "patch.diff"))
+                and (only is None or sid.split("-")[0] in only)]
+        if jobs > 1 and "--inplace" not in a:
+            from concurrent.futures import ThreadPoolExecutor
+            with ThreadPoolExecutor(jobs) as ex:
+                list(ex.map(lambda sid: run(sid, tier, False, props), sids))
+        else:
+            for sid in sids:
                 run(sid, tier, "--inplace" in a, props)
